@@ -222,6 +222,605 @@ fn bounds(range: std::ops::RangeInclusive<i64>) -> Vec<String> {
     v
 }
 
+// =====================================================================================
+// Glue streams (deepening round 3): value-kind x bound-kind products through several
+// entry points and undefined modes, long sequences, metamorphic relations.
+//
+//   gs <mode> <entry> <value> <a> <b> <c>      slice, `_` = omitted part
+//   gi <mode> <entry> <value> <key>            subscript
+//   ga <mode> <entry> <value> <hexname>        attribute lookup
+//   long <kind> <len> <a> <b> <c>              long sequences, result as digest
+//   meta <rel> <kind> <len> <a> <b> <c>        metamorphic relations (lhs|rhs)
+//
+// value specs: U undefined, Z none, T/F bool, i:<n> I64, u:<n> U64, I:<n> I128, W:<n> U128,
+// f:<bits> F64, sn:<hex> String(Normal), sm:<hex> Value::from(&str) (SmallStr when it fits),
+// sa:<hex> safe string, b:<hex> bytes, L:<n> Vec, D:<n> VecDeque, P:<n> Tuple, E:<n> sized
+// iterable, X:<n> iterable of unknown length, O:<n> one-shot iterator, R:<n> range(n),
+// CS:<n> custom Seq object, CI:<n> custom Iterable object, M:<k,k,..> ValueMap (keys are value
+// specs, values 0,1,2..), MS:<hex,hex,..> string-keyed BTreeMap<String, Value>, Q plain object.
+// =====================================================================================
+use minijinja::value::{Enumerator, Object, ObjectRepr};
+use minijinja::UndefinedBehavior;
+use std::collections::BTreeMap;
+
+#[derive(Debug)]
+struct CustomSeq(usize);
+impl Object for CustomSeq {
+    fn repr(self: &Arc<Self>) -> ObjectRepr { ObjectRepr::Seq }
+    fn get_value(self: &Arc<Self>, key: &Value) -> Option<Value> {
+        let i = key.as_usize()?;
+        if i < self.0 { Some(Value::from(i as i64)) } else { None }
+    }
+    fn enumerate(self: &Arc<Self>) -> Enumerator { Enumerator::Seq(self.0) }
+}
+#[derive(Debug)]
+struct CustomIter(usize);
+impl Object for CustomIter {
+    fn repr(self: &Arc<Self>) -> ObjectRepr { ObjectRepr::Iterable }
+    fn enumerate(self: &Arc<Self>) -> Enumerator {
+        Enumerator::Values((0..self.0 as i64).map(Value::from).collect())
+    }
+}
+#[derive(Debug)]
+struct PlainObj;
+impl Object for PlainObj {
+    fn repr(self: &Arc<Self>) -> ObjectRepr { ObjectRepr::Plain }
+}
+
+fn mk_spec(spec: &str) -> Value {
+    let (tag, arg) = spec.split_once(':').unwrap_or((spec, ""));
+    let n = || arg.parse::<usize>().unwrap();
+    match tag {
+        "U" => Value::UNDEFINED,
+        "Z" | "_" => Value::from(()),
+        "T" => Value::from(true),
+        "F" => Value::from(false),
+        "i" => Value::from(arg.parse::<i64>().unwrap()),
+        "u" => Value::from(arg.parse::<u64>().unwrap()),
+        "I" => Value::from(arg.parse::<i128>().unwrap()),
+        "W" => Value::from(arg.parse::<u128>().unwrap()),
+        "f" => Value::from(f64::from_bits(arg.parse::<u64>().unwrap())),
+        "sn" => Value::from(Arc::<str>::from(String::from_utf8(unhex(arg)).unwrap().as_str())),
+        "sm" => Value::from(String::from_utf8(unhex(arg)).unwrap()),
+        "sa" => Value::from_safe_string(String::from_utf8(unhex(arg)).unwrap()),
+        "b" => Value::from_bytes(unhex(arg)),
+        "L" => Value::from((0..n() as i64).collect::<Vec<_>>()),
+        "D" => Value::from_object((0..n() as i64).map(Value::from).collect::<std::collections::VecDeque<_>>()),
+        "P" => Value::from(Tuple::from((0..n() as i64).map(Value::from).collect::<Vec<_>>())),
+        "E" => { let n = n(); Value::make_iterable(move || 0..n as i64) }
+        "X" => { let n = n() as i64; Value::make_iterable(move || { let mut i = 0i64; std::iter::from_fn(move || if i < n { i += 1; Some(i - 1) } else { None }) }) }
+        "O" => Value::make_one_shot_iterator(0..n() as i64),
+        "R" => Environment::new().compile_expression("range(n)").unwrap().eval(context! { n => n() }).unwrap(),
+        "CS" => Value::from_object(CustomSeq(n())),
+        "CI" => Value::from_object(CustomIter(n())),
+        "M" => {
+            let mut m: BTreeMap<Value, Value> = BTreeMap::new();
+            for (i, k) in arg.split(',').filter(|k| !k.is_empty()).enumerate() {
+                m.insert(mk_spec(&k.replace('=', ":")), Value::from(i as i64));
+            }
+            Value::from_object(m)
+        }
+        "MS" => {
+            let mut m: BTreeMap<String, Value> = BTreeMap::new();
+            for (i, k) in arg.split(',').filter(|k| !k.is_empty()).enumerate() {
+                m.insert(String::from_utf8(unhex(k)).unwrap(), Value::from(i as i64));
+            }
+            Value::from(m)
+        }
+        "Q" => Value::from_object(PlainObj),
+        _ => panic!("bad value spec {}", spec),
+    }
+}
+
+/// source text of a literal for the `lit` entries (None = the spec has no literal form)
+fn lit_src(spec: &str) -> Option<String> {
+    let (tag, arg) = spec.split_once(':').unwrap_or((spec, ""));
+    Some(match tag {
+        "_" => String::new(),
+        "Z" => "none".into(),
+        "T" => "true".into(),
+        "F" => "false".into(),
+        "i" | "u" | "I" | "W" => {
+            // the literal -2^127 is not an integer literal of the engine (2^127 does not fit i128)
+            if arg == "-170141183460469231731687303715884105728" { return None; }
+            if arg.starts_with('-') { format!("({})", arg) } else { arg.to_string() }
+        }
+        "f" => {
+            let f = f64::from_bits(arg.parse::<u64>().unwrap());
+            if !f.is_finite() || f.abs() >= 1e15 || (f != 0.0 && f.abs() < 1e-4) || (f == 0.0 && f.is_sign_negative()) { return None; }
+            let t = format!("{:?}", f);
+            if t.starts_with('-') { format!("({})", t) } else { t }
+        }
+        "sn" | "sm" => {
+            let s = String::from_utf8(unhex(arg)).unwrap();
+            if s.contains('"') || s.contains('\\') { return None; }
+            format!("\"{}\"", s)
+        }
+        "L" => format!("[{}]", (0..arg.parse::<usize>().unwrap()).map(|i| i.to_string()).collect::<Vec<_>>().join(", ")),
+        "P" => {
+            let n = arg.parse::<usize>().unwrap();
+            if n == 0 { "()".into() } else if n == 1 { "(0,)".into() } else { format!("({})", (0..n).map(|i| i.to_string()).collect::<Vec<_>>().join(", ")) }
+        }
+        _ => return None,
+    })
+}
+
+fn elem_str(v: &Value) -> String {
+    if v.is_undefined() { "undef".into() } else if v.kind() == ValueKind::Number && v.is_integer() { v.to_string() } else { format!("?{}", v.kind()) }
+}
+
+fn canon_g(v: &Value) -> String {
+    if v.is_undefined() { return "undef".into(); }
+    if v.is_none() { return "none".into(); }
+    match v.kind() {
+        ValueKind::String => format!("{}:{}", if v.is_safe() { "safestr" } else { "str" }, hex(v.as_str().unwrap().as_bytes())),
+        ValueKind::Bytes => format!("bytes:{}", hex(v.as_bytes().unwrap())),
+        ValueKind::Bool => format!("bool:{}", v),
+        ValueKind::Number => if v.is_integer() { format!("num:{}", v) } else { format!("numf:{}", f64::try_from(v.clone()).unwrap().to_bits()) },
+        ValueKind::Seq | ValueKind::Iterable => {
+            // iterate first (one-shot iterators!), ask for the length afterwards
+            let items = match v.try_iter() {
+                Ok(it) => it.map(|x| elem_str(&x)).collect::<Vec<_>>().join(","),
+                Err(e) => return format!("err:{}|iter", error_kind_name(&e)),
+            };
+            let class = if v.is_tuple() { "tuple".to_string() } else if v.kind() == ValueKind::Seq { "seq".to_string() }
+                else { format!("iter{}", if v.len().is_some() { "S" } else { "U" }) };
+            format!("{}:{}", class, items)
+        }
+        other => format!("other:{:?}", other),
+    }
+}
+
+fn canon_item(container: &str, v: &Value) -> String {
+    if v.is_undefined() { return "undef".into(); }
+    match v.kind() {
+        ValueKind::String if container.starts_with('s') => format!("chr:{}{}", hex(v.as_str().unwrap().as_bytes()), if v.is_safe() { ":safe" } else { "" }),
+        ValueKind::Number if container.starts_with('b') && v.is_integer() => format!("byte:{}", v),
+        ValueKind::Number if v.is_integer() => format!("elem:{}", v),
+        _ => format!("other:{}", canon_g(v)),
+    }
+}
+
+fn err_str(e: &minijinja::Error) -> String {
+    format!("err:{}|{}", error_kind_name(e), e.detail().unwrap_or(""))
+}
+
+fn mode_of(m: &str) -> UndefinedBehavior {
+    match m { "L" => UndefinedBehavior::Lenient, "C" => UndefinedBehavior::Chainable, "S" => UndefinedBehavior::SemiStrict, "X" => UndefinedBehavior::Strict, _ => panic!("bad mode") }
+}
+
+thread_local! { static PROBE: std::cell::RefCell<Option<String>> = std::cell::RefCell::new(None); }
+
+/// evaluate `expr_src` (an expression over the context `ctx`) through the entry point `entry`
+/// and canonicalise its value with `canon` *inside* the evaluation (lazy results are forced there)
+fn eval_entry(mode: &str, entry: &str, expr_src: &str, ctx: Value, canon: &(dyn Fn(&Value) -> String + Sync + Send)) -> String {
+    let mut env = Environment::new();
+    env.set_undefined_behavior(mode_of(mode));
+    let r = guarded(|| -> Result<String, minijinja::Error> {
+        if entry == "expr" || entry == "lit" || entry == "dot" {
+            let e = env.compile_expression(expr_src)?;
+            let out = e.eval(ctx)?;
+            return Ok(canon(&out));
+        }
+        // template entries: a probe function receives the value and canonicalises it
+        let canon_ptr: &'static (dyn Fn(&Value) -> String + Sync + Send) = unsafe { std::mem::transmute(canon) };
+        env.add_function("probe", move |v: Value| -> String {
+            let s = canon_ptr(&v);
+            PROBE.with(|p| *p.borrow_mut() = Some(s));
+            String::new()
+        });
+        PROBE.with(|p| *p.borrow_mut() = None);
+        let src = match entry {
+            "tmpl" | "write" => format!("{{{{ probe({}) }}}}", expr_src),
+            "blk" => format!("x{{% if false %}}{{% block body %}}{{{{ probe({}) }}}}{{% endblock %}}{{% endif %}}y", expr_src),
+            "mac" => format!("{{% macro m(v, a, b, c) %}}{{{{ probe({}) }}}}{{% endmacro %}}{{{{ m(v, a, b, c) }}}}", expr_src),
+            "for" => format!("{{% for q in [1] %}}{{{{ probe({}) }}}}{{% endfor %}}", expr_src),
+            "set" => format!("{{% set r = {} %}}{{{{ probe(r) }}}}", expr_src),
+            "cap" => format!("{{{{ probe({}) }}}}", expr_src),
+            _ => panic!("bad entry {}", entry),
+        };
+        match entry {
+            "write" => {
+                env.add_template_owned("t.txt".to_string(), src.clone())?;
+                let t = env.get_template("t.txt")?;
+                let mut buf = Vec::new();
+                t.render_captured_to(ctx, &mut buf)?;
+            }
+            "blk" => {
+                let t = env.template_from_str(&src)?;
+                let mut cap = t.render_captured(ctx)?;
+                PROBE.with(|p| *p.borrow_mut() = None);
+                cap.with_state_mut(|st| st.render_block("body"))?;
+            }
+            "cap" => {
+                let t = env.template_from_str(&src)?;
+                t.render_captured(ctx)?;
+            }
+            _ => {
+                let t = env.template_from_str(&src)?;
+                t.render(ctx)?;
+            }
+        }
+        Ok(PROBE.with(|p| p.borrow_mut().take()).unwrap_or_else(|| "no-probe".into()))
+    });
+    match r {
+        Ok(Ok(s)) => s,
+        Ok(Err(e)) => err_str(&e),
+        Err(_) => "panic".into(),
+    }
+}
+
+fn run_gs(mode: &str, entry: &str, vs: &str, a: &str, b: &str, c: &str) -> String {
+    let part = |name: &str, spec: &str| -> Option<String> {
+        if spec == "_" { Some(String::new()) } else if entry == "lit" { lit_src(spec) } else { Some(name.to_string()) }
+    };
+    let (Some(sa), Some(sb), Some(sc)) = (part("a", a), part("b", b), part("c", c)) else { return "no-literal".into() };
+    let vsrc = if entry == "lit" && ["L:", "P:", "sn:", "sm:"].iter().any(|p| vs.starts_with(p)) { lit_src(vs).unwrap_or_else(|| "v".to_string()) } else { "v".to_string() };
+    let src = if c == "_" && entry != "lit" { format!("{}[{}:{}]", vsrc, sa, sb) } else { format!("{}[{}:{}:{}]", vsrc, sa, sb, sc) };
+    let ctx = context! { v => mk_spec(vs), a => mk_spec(a), b => mk_spec(b), c => mk_spec(c) };
+    eval_entry(mode, entry, &src, ctx, &canon_g)
+}
+
+fn run_gi(mode: &str, entry: &str, vs: &str, key: &str) -> String {
+    let vs_owned = vs.to_string();
+    let canon = move |v: &Value| canon_item(&vs_owned, v);
+    match entry {
+        "api" => {
+            let v = mk_spec(vs);
+            let k = mk_spec(key);
+            match guarded(|| v.get_item(&k).map(|x| canon_item(vs, &x))) {
+                Ok(Ok(s)) => s, Ok(Err(e)) => err_str(&e), Err(_) => "panic".into(),
+            }
+        }
+        "apiidx" => {
+            let v = mk_spec(vs);
+            let idx: usize = key.split_once(':').unwrap().1.parse::<u64>().unwrap() as usize;
+            match guarded(|| v.get_item_by_index(idx).map(|x| canon_item(vs, &x))) {
+                Ok(Ok(s)) => s, Ok(Err(e)) => err_str(&e), Err(_) => "panic".into(),
+            }
+        }
+        "lit" | "dot" => {
+            let Some(k) = lit_src(key) else { return "no-literal".into() };
+            let vsrc = if ["L:", "P:", "sn:", "sm:"].iter().any(|p| vs.starts_with(p)) { lit_src(vs).unwrap_or_else(|| "v".to_string()) } else { "v".to_string() };
+            let src = if entry == "dot" { format!("{}.{}", vsrc, k) } else { format!("{}[{}]", vsrc, k) };
+            eval_entry(mode, entry, &src, context! { v => mk_spec(vs) }, &canon)
+        }
+        _ => eval_entry(mode, entry, "v[a]", context! { v => mk_spec(vs), a => mk_spec(key), b => (), c => () }, &canon),
+    }
+}
+
+fn run_ga(mode: &str, entry: &str, vs: &str, hexname: &str) -> String {
+    let name = String::from_utf8(unhex(hexname)).unwrap();
+    let vs_owned = vs.to_string();
+    let canon = move |v: &Value| canon_item(&vs_owned, v);
+    if entry == "api" {
+        let v = mk_spec(vs);
+        return match guarded(|| v.get_attr(&name).map(|x| canon_item(vs, &x))) {
+            Ok(Ok(s)) => s, Ok(Err(e)) => err_str(&e), Err(_) => "panic".into(),
+        };
+    }
+    eval_entry(mode, entry, &format!("v.{}", name), context! { v => mk_spec(vs), a => (), b => (), c => () }, &canon)
+}
+
+// ---- long sequences -----------------------------------------------------------------------
+fn long_chr(i: usize) -> char {
+    let q = (i / 4) as u32;
+    match i % 4 {
+        0 => char::from_u32(0x61 + q % 26).unwrap(),
+        1 => char::from_u32(0xe0 + q % 32).unwrap(),
+        2 => char::from_u32(0x4e00 + q % 1000).unwrap(),
+        _ => char::from_u32(0x1f600 + q % 64).unwrap(),
+    }
+}
+fn long_byte(i: usize) -> u8 { ((i * 7 + 3) % 256) as u8 }
+
+fn mk_long(kind: &str, len: usize) -> Value {
+    match kind {
+        "strn" => Value::from(Arc::<str>::from((0..len).map(long_chr).collect::<String>().as_str())),
+        "strm" => Value::from((0..len).map(long_chr).collect::<String>()),
+        "stra" => Value::from_safe_string((0..len).map(long_chr).collect::<String>()),
+        "bytes" => Value::from_bytes((0..len).map(long_byte).collect()),
+        "list" => Value::from((0..len as i64).collect::<Vec<_>>()),
+        "tuple" => Value::from(Tuple::from((0..len as i64).map(Value::from).collect::<Vec<_>>())),
+        "deque" => Value::from_object((0..len as i64).map(Value::from).collect::<std::collections::VecDeque<_>>()),
+        "itersized" => Value::make_iterable(move || 0..len as i64),
+        "iterunsized" => { let n = len as i64; Value::make_iterable(move || { let mut i = 0i64; std::iter::from_fn(move || if i < n { i += 1; Some(i - 1) } else { None }) }) }
+        "oneshot" => Value::make_one_shot_iterator(0..len as i64),
+        "range" => mk_value("range", len),
+        _ => panic!("bad long kind"),
+    }
+}
+
+fn digest(class: &str, xs: impl Iterator<Item = u64>) -> String {
+    let mut h: u64 = 0xcbf29ce484222325;
+    let mut n = 0usize;
+    let mut head = Vec::new();
+    for x in xs {
+        h = (h ^ x).wrapping_mul(0x100000001b3);
+        if n < 6 { head.push(x.to_string()); }
+        n += 1;
+    }
+    format!("{}#{}#{}#{}", class, n, h, head.join(","))
+}
+
+fn canon_long(v: &Value) -> String {
+    if v.is_undefined() { return "undef".into(); }
+    match v.kind() {
+        ValueKind::String => digest(if v.is_safe() { "safestr" } else { "str" }, v.as_str().unwrap().chars().map(|c| c as u64)),
+        ValueKind::Bytes => digest("bytes", v.as_bytes().unwrap().iter().map(|b| *b as u64)),
+        ValueKind::Seq | ValueKind::Iterable => {
+            let class = if v.is_tuple() { "tuple" } else { "list" };
+            match v.try_iter() {
+                Ok(it) => digest(class, it.map(|x| u64::try_from(x).unwrap_or(u64::MAX))),
+                Err(e) => err_str(&e),
+            }
+        }
+        ValueKind::Number => format!("elem:{}", v),
+        other => format!("other:{:?}", other),
+    }
+}
+
+fn bound_lit(b: &str) -> String {
+    if b == "_" { String::new() } else if b.starts_with('-') { format!("({})", b) } else { b.to_string() }
+}
+
+/// `long <kind> <len> <a> <b> <c>`: bounds are decimal integers of any size (context values of
+/// the narrowest of I64/U64/I128/U128 holding them) or `_`; `c` = `i<k>` means the subscript `[k]`
+fn run_long(kind: &str, len: usize, a: &str, b: &str, c: &str) -> String {
+    let v = mk_long(kind, len);
+    let val = |s: &str| -> Value {
+        if s == "_" { return Value::from(()); }
+        if let Ok(x) = s.parse::<i64>() { Value::from(x) }
+        else if let Ok(x) = s.parse::<u64>() { Value::from(x) }
+        else if let Ok(x) = s.parse::<i128>() { Value::from(x) }
+        else { Value::from(s.parse::<u128>().unwrap()) }
+    };
+    let env = Environment::new();
+    let r = guarded(|| -> Result<String, minijinja::Error> {
+        if let Some(k) = c.strip_prefix('i') {
+            let out = env.compile_expression("v[k]")?.eval(context! { v => v, k => val(k) })?;
+            return Ok(if out.is_undefined() { "undef".into() } else { match out.kind() {
+                ValueKind::String => format!("chr:{}", out.as_str().unwrap().chars().next().map(|c| c as u32).unwrap_or(0)),
+                _ => format!("elem:{}", out),
+            } });
+        }
+        let src = if c == "_" { "v[a:b]" } else { "v[a:b:c]" };
+        let out = env.compile_expression(src)?.eval(context! { v => v, a => val(a), b => val(b), c => val(c) })?;
+        Ok(canon_long(&out))
+    });
+    match r { Ok(Ok(s)) => s, Ok(Err(e)) => err_str(&e), Err(_) => "panic".into() }
+}
+
+// ---- metamorphic relations ----------------------------------------------------------------
+/// `meta <rel> <kind> <len> <a> <b> <c>` prints `lhs|rhs` (both canonical)
+fn run_meta(rel: &str, kind: &str, len: usize, a: &str, b: &str, c: &str) -> String {
+    let env = Environment::new();
+    let sl = if c == "_" { format!("[{}:{}]", bound_lit(a), bound_lit(b)) } else { format!("[{}:{}:{}]", bound_lit(a), bound_lit(b), bound_lit(c)) };
+    let ev = |src: &str| -> String {
+        let v = mk_long(kind, len);
+        match guarded(|| env.compile_expression(src).and_then(|e| e.eval(context! { v => v })).map(|o| canon_long(&o))) {
+            Ok(Ok(s)) => s, Ok(Err(e)) => err_str(&e), Err(_) => "panic".into(),
+        }
+    };
+    let rd = |src: &str| -> String {
+        let v = mk_long(kind, len);
+        match guarded(|| env.render_str(src, context! { v => v })) {
+            Ok(Ok(s)) => s, Ok(Err(e)) => err_str(&e), Err(_) => "panic".into(),
+        }
+    };
+    match rel {
+        // `xs|reverse` selects what `xs[::-1]` selects
+        "rev" => format!("{}~~{}", ev("v|reverse"), ev("v[::-1]")),
+        "first" => format!("{}~~{}", ev("v|first"), ev("v[0]")),
+        "last" => format!("{}~~{}", ev("v|last"), ev("v[-1]")),
+        // length of a slice
+        "len" => rd(&format!("{{{{ v{}|length }}}}", sl)),
+        // a slice driven by a for loop: loop.length and the items
+        "loop" => rd(&format!("{{% for x in v{} %}}{{{{ loop.length }}}}:{{{{ loop.index0 }}}}:{{{{ x }}}},{{% endfor %}}", sl)),
+        // a slice of a slice of a slice (b and c reused as the inner slices' bounds)
+        "sss" => ev(&format!("v{}[{}:{}][::{}]", sl, bound_lit(b), bound_lit(a), if c == "_" || c == "0" { "1".to_string() } else { bound_lit(c) })),
+        // literal container vs run-time container (lists and short strings only)
+        "litv" => {
+            let lit = match kind {
+                "list" => format!("[{}]", (0..len).map(|i| i.to_string()).collect::<Vec<_>>().join(", ")),
+                "tuple" => if len == 1 { "(0,)".to_string() } else { format!("({})", (0..len).map(|i| i.to_string()).collect::<Vec<_>>().join(", ")) },
+                _ => format!("\"{}\"", (0..len).map(long_chr).collect::<String>()),
+            };
+            format!("{}~~{}", ev(&format!("{}{}", lit, sl)), ev(&format!("v{}", sl)))
+        }
+        "liti" => {
+            let lit = match kind {
+                "list" => format!("[{}]", (0..len).map(|i| i.to_string()).collect::<Vec<_>>().join(", ")),
+                "tuple" => if len == 1 { "(0,)".to_string() } else { format!("({})", (0..len).map(|i| i.to_string()).collect::<Vec<_>>().join(", ")) },
+                _ => format!("\"{}\"", (0..len).map(long_chr).collect::<String>()),
+            };
+            let evi = |src: &str| -> String {
+                let v = mk_long(kind, len);
+                match guarded(|| env.compile_expression(src).and_then(|e| e.eval(context! { v => v })).map(|o| {
+                    if o.is_undefined() { "undef".to_string() } else if o.kind() == ValueKind::String { format!("chr:{}", o.as_str().unwrap().chars().next().map(|c| c as u32).unwrap_or(0)) } else { format!("elem:{}", o) }
+                })) { Ok(Ok(s)) => s, Ok(Err(e)) => err_str(&e), Err(_) => "panic".into() }
+            };
+            format!("{}~~{}", evi(&format!("{}[{}]", lit, bound_lit(a))), evi(&format!("v[{}]", bound_lit(a))))
+        }
+        _ => "bad-rel".into(),
+    }
+}
+
+fn fb(x: f64) -> String { format!("f:{}", x.to_bits()) }
+
+fn value_specs() -> Vec<String> {
+    let s5 = hex("aé€𝄞b".as_bytes());
+    let long: String = (0..30).map(long_chr).collect();
+    let mut v: Vec<String> = ["U", "Z", "T", "i:5", "sn:", "sm:61", "b:000102fe", "b:", "L:0", "L:1", "L:4", "D:4", "P:0", "P:1", "P:2",
+        "P:4", "E:4", "E:0", "X:4", "X:0", "O:4", "R:4", "CS:4", "CI:4", "M:i=1,i=-1,i=0,sm=6b,sm=31,T", "M:", "MS:6b,31", "Q"]
+        .iter().map(|s| s.to_string()).collect();
+    v.push(fb(1.0));
+    for r in ["sn", "sm", "sa"] { v.push(format!("{}:{}", r, s5)); }
+    v.push(format!("sm:{}", hex(long.as_bytes())));
+    v.push(format!("sa:{}", hex(long.as_bytes())));
+    v
+}
+
+fn key_specs() -> Vec<String> {
+    let mut k: Vec<String> = ["Z", "U", "T", "F"].iter().map(|s| s.to_string()).collect();
+    for i in -6..=6i64 { k.push(format!("i:{}", i)); }
+    for s in ["i:-9223372036854775808", "i:9223372036854775807", "i:-9223372036854775807", "u:0", "u:3", "u:9223372036854775807",
+              "u:9223372036854775808", "u:18446744073709551615", "I:-1", "I:2", "I:0", "I:-9223372036854775808", "I:-9223372036854775809",
+              "I:9223372036854775807", "I:9223372036854775808", "I:-170141183460469231731687303715884105728",
+              "I:170141183460469231731687303715884105727", "W:1", "W:0", "W:9223372036854775808",
+              "W:340282366920938463463374607431768211455", "sn:31", "sm:31", "sm:6b", "sa:30", "sm:", "b:01", "L:2", "P:1", "M:i=1", "Q", "E:2"] {
+        k.push(s.to_string());
+    }
+    for f in [1.0, -1.0, 0.0, -0.0, 2.0, 3.0, -4.0, -5.0, 1.5, -0.5, f64::NAN, f64::INFINITY, f64::NEG_INFINITY, 9223372036854775808.0,
+              -9223372036854775808.0, 9223372036854774784.0, -9223372036854777856.0, 9007199254740992.0, 1e300, -1e300, 5e-324, 4294967296.0] {
+        k.push(fb(f));
+    }
+    k
+}
+
+const MODES: [&str; 4] = ["L", "C", "S", "X"];
+const TMPL_ENTRIES: [&str; 7] = ["tmpl", "write", "blk", "mac", "for", "set", "cap"];
+
+fn gen_glue(out: &mut impl Write, thorough: bool) {
+    let mut rng = Rng::new(seed_from_env() ^ 0x9109);
+    let values = value_specs();
+    let keys = key_specs();
+    let others: [(&str, &str); 9] = [("_", "_"), ("i:1", "i:3"), ("i:-2", "_"), ("_", "i:-1"), ("i:0", "i:2"), ("i:-1", "i:-1"),
+                                     ("i:2", "i:0"), ("U", "_"), ("sn:31", "sm:31")];
+    let den = if thorough { 2 } else { 16 };
+    // ---- slices
+    for vs in &values {
+        let mut ks: Vec<String> = keys.clone();
+        ks.push("_".to_string());
+        for k in &ks {
+            for pos in 0..3 {
+                for (o1, o2) in others {
+                    let (a, b, c) = match pos { 0 => (k.as_str(), o1, o2), 1 => (o1, k.as_str(), o2), _ => (o1, o2, k.as_str()) };
+                    for mode in MODES {
+                        let entries: Vec<&str> = std::iter::once("expr").chain(std::iter::once("lit")).chain(TMPL_ENTRIES.iter().copied()).collect();
+                        for entry in entries {
+                            let always = (mode == "L" && entry == "expr") || ((vs == "U" || vs == "Z") && (entry == "expr" || entry == "tmpl") && pos == 0);
+                            if !always && !rng.chance(1, den) { continue; }
+                            let r = run_gs(mode, entry, vs, a, b, c);
+                            if r == "no-literal" { continue; }
+                            writeln!(out, "gs {} {} {} {} {} {}\t{}", mode, entry, vs, a, b, c, r).unwrap();
+                        }
+                    }
+                }
+            }
+        }
+    }
+    // ---- subscripts
+    for vs in &values {
+        for k in &keys {
+            for mode in MODES {
+                for entry in ["expr", "api", "tmpl", "lit", "dot", "apiidx", "write", "blk", "mac", "for", "set", "cap"] {
+                    if entry == "apiidx" && !(k.starts_with("u:")) { continue; }
+                    if entry == "dot" && !(["i:", "u:", "I:", "W:"].iter().any(|p| k.starts_with(p)) && !k.contains('-')) { continue; }
+                    let always = matches!(entry, "expr" | "api" | "apiidx" | "dot") || vs == "U" || vs == "Z";
+                    if !always && !rng.chance(1, if thorough { 1 } else { 4 }) { continue; }
+                    let r = run_gi(mode, entry, vs, k);
+                    if r == "no-literal" { continue; }
+                    writeln!(out, "gi {} {} {} {}\t{}", mode, entry, vs, k, r).unwrap();
+                }
+            }
+        }
+    }
+    // ---- attributes
+    for vs in &values {
+        for name in ["x", "k", "length", "x1"] {
+            for mode in MODES {
+                for entry in ["expr", "api", "tmpl", "mac"] {
+                    let r = run_ga(mode, entry, vs, &hex(name.as_bytes()));
+                    writeln!(out, "ga {} {} {} {}\t{}", mode, entry, vs, hex(name.as_bytes()), r).unwrap();
+                }
+            }
+        }
+        // numeric strings as attribute names reach `get_attr` only through the API
+        for name in ["0", "1", "-1", "1.0", "31", "é", "k"] {
+            let r = run_ga("L", "api", vs, &hex(name.as_bytes()));
+            writeln!(out, "ga L api {} {}\t{}", vs, hex(name.as_bytes()), r).unwrap();
+        }
+    }
+}
+
+fn rnd_big_bound(rng: &mut Rng, len: usize, step: bool) -> String {
+    let l = len as i128;
+    let around = |rng: &mut Rng, c: i128, w: i128| -> String { (c + rng.below((2 * w + 1) as u64) as i128 - w).to_string() };
+    match rng.below(if step { 12 } else { 14 }) {
+        0 | 1 => "_".to_string(),
+        2 => around(rng, 0, if step { 7 } else { 5 }),
+        3 => around(rng, l, 3),
+        4 => around(rng, -l, 3),
+        5 => around(rng, 1i128 << 31, 2),
+        6 => around(rng, -(1i128 << 31), 2),
+        7 => around(rng, 1i128 << 63, 2),
+        8 => around(rng, -(1i128 << 63), 2),
+        9 => match rng.below(6) {
+            0 => around(rng, 1i128 << 64, 1),
+            1 => around(rng, -(1i128 << 64), 1),
+            2 => i128::MAX.to_string(),
+            3 => i128::MIN.to_string(),
+            4 => u128::MAX.to_string(),
+            _ => around(rng, 1i128 << 32, 2),
+        },
+        10 => around(rng, l / 2, l / 2 + 2),
+        11 => around(rng, -l / 2, l / 2 + 2),
+        _ => around(rng, 0, l + 10),
+    }
+}
+
+fn gen_long(out: &mut impl Write, thorough: bool) {
+    let mut rng = Rng::new(seed_from_env() ^ 0x10c9);
+    let kinds = ["strn", "strm", "stra", "bytes", "list", "tuple", "deque", "itersized", "iterunsized", "oneshot", "range"];
+    let n = if thorough { 300_000 } else { 30_000 };
+    for _ in 0..n {
+        let kind = *rng.pick(&kinds);
+        let len = match rng.below(3) { 0 => rng.below(50), 1 => rng.below(300), _ => rng.below(2001) } as usize;
+        let a = rnd_big_bound(&mut rng, len, false);
+        let (b, c) = if rng.chance(1, 6) {
+            // subscript
+            let k = if a == "_" { "0".to_string() } else { a.clone() };
+            let k = if kind == "oneshot" && k.starts_with('-') { k[1..].to_string() } else { k };
+            ("_".to_string(), format!("i{}", k))
+        } else {
+            let b = rnd_big_bound(&mut rng, len, false);
+            let mut c = rnd_big_bound(&mut rng, len, true);
+            if c == "0" && !rng.chance(1, 4) { c = "_".to_string(); }
+            (b, c)
+        };
+        let a = if c.starts_with('i') { "_".to_string() } else { a };
+        let r = run_long(kind, len, &a, &b, &c);
+        writeln!(out, "long {} {} {} {} {}\t{}", kind, len, a, b, c, r).unwrap();
+    }
+}
+
+fn gen_meta(out: &mut impl Write, thorough: bool) {
+    let mut rng = Rng::new(seed_from_env() ^ 0x3e7a);
+    let kinds = ["strn", "strm", "stra", "bytes", "list", "tuple", "deque", "itersized", "iterunsized", "range"];
+    let n = if thorough { 120_000 } else { 16_000 };
+    let small = |rng: &mut Rng, len: usize| -> String {
+        match rng.below(8) { 0 | 1 => "_".to_string(), 2 => i64::MAX.to_string(), 3 => i64::MIN.to_string(),
+            _ => (rng.below(2 * len as u64 + 7) as i64 - len as i64 - 3).to_string() }
+    };
+    for _ in 0..n {
+        let rel = *rng.pick(&["rev", "first", "last", "len", "len", "loop", "loop", "sss", "sss", "litv", "liti"]);
+        let kind = if rel.starts_with("lit") { *rng.pick(&["list", "tuple", "strm", "strn"]) } else { *rng.pick(&kinds) };
+        // the reverse/first/last filters and for loops do not treat bytes as a sequence (not this property's business)
+        let kind = if matches!(rel, "rev" | "first" | "last" | "loop") && kind == "bytes" { "list" } else { kind };
+        let len = if rel.starts_with("lit") { rng.below(12) as usize + if kind == "tuple" { 1 } else { 0 } } else if rng.chance(1, 3) { rng.below(7) as usize } else { rng.below(120) as usize };
+        let (a, b, c) = if matches!(rel, "rev" | "first" | "last") { ("_".to_string(), "_".to_string(), "_".to_string()) } else {
+            let a = small(&mut rng, len);
+            let b = small(&mut rng, len);
+            let c = match rng.below(6) { 0 | 1 => "_".to_string(), 2 => "-1".to_string(), _ => { let k = rng.below(5) as i64 + 1; if rng.chance(1, 2) { (-k).to_string() } else { k.to_string() } } };
+            (a, b, c)
+        };
+        let a = if rel == "liti" && a == "_" { "-1".to_string() } else { a };
+        let r = run_meta(rel, kind, len, &a, &b, &c);
+        writeln!(out, "meta {} {} {} {} {} {}\t{}", rel, kind, len, a, b, c, r).unwrap();
+    }
+}
+
 fn main() {
     quiet_panics();
     let args: Vec<String> = std::env::args().collect();
@@ -293,6 +892,9 @@ fn main() {
                     writeln!(out, "chain {} {} {}\t{}", kind, len, suffix, r).unwrap();
                 }
             }
+            gen_glue(&mut out, thorough);
+            gen_long(&mut out, thorough);
+            gen_meta(&mut out, thorough);
             if !thorough {
                 // literal forms on a sub-box (the parser's negative-literal path)
                 for kind in ["strsmall", "list", "tuple"] {
@@ -315,6 +917,11 @@ fn main() {
                 "slice" => run_slice(&env, f[1], f[2].parse().unwrap(), f[3], f[4], f[5], f[6]),
                 "index" => run_index(&env, f[1], f[2].parse().unwrap(), f[3], f[4]),
                 "chain" => run_chain(&env, f[1], f[2].parse().unwrap(), f[3]),
+                "gs" => run_gs(f[1], f[2], f[3], f[4], f[5], f[6]),
+                "gi" => run_gi(f[1], f[2], f[3], f[4]),
+                "ga" => run_ga(f[1], f[2], f[3], f[4]),
+                "long" => run_long(f[1], f[2].parse().unwrap(), f[3], f[4], f[5]),
+                "meta" => run_meta(f[1], f[2], f[3].parse().unwrap(), f[4], f[5], f[6]),
                 _ => "bad-case".into(),
             };
             writeln!(out, "{}\t{}", f.join(" "), r).unwrap();
